@@ -22,7 +22,7 @@ WRAPPERS = {
     'AffTree::polyhedra_iter': ('PolyhedraIter::new(self.tree)', [], 'iterator over this tree'),
     'DfsNodeData::extract': ('tuple(self.depth, self.index, self.n_remaining)', [], '(depth, index, n_remaining) in this order'),
 }
-FLOORS = {'C09.R6': 9, 'C09.R1': 4, 'C09.R2': 10, 'C09.R3': 1, 'C09.R4': 8, 'C09.R5': 10}
+FLOORS = {'C09.R6': 9, 'C09.R1': 4, 'C09.R2': 10, 'C09.R3': 1, 'C09.R4': 8, 'C09.R5': 14}
 EXPLANATION = 'The evaluator and the two region builders implement the same closed half-space per label, for every tree and input (exact arithmetic).'
 DOES_NOT_DECIDE = ('traversals started below the root with PolyhedraGen::with_root (the path above the start node is not reconstructed); disjoint interiors and coverage (set reasoning); '
                    'ordering/depth counters (C13)')
